@@ -9,8 +9,10 @@ import (
 )
 
 var macroKeysEmacs = []string{"a", "b", " ", "x", "\"", "'", "\\", "-", "é", "\x01", "\x05", "\x02", "\x06", "\x1bb", "\x1bf", "\x04", "\x7f",
-	"\x0b", "\x17", "\x19", "\x1bd", "\x1b[D", "\x1b[C", "\x14", "\x1bu", "\x1bl", "\x1bc", "\x1b\x7f"}
-var macroKeysVi = []string{"h", "l", "w", "b", "e", "0", "$", "x", "X", "~", "p", "P", "D", "ia\x1b", "A\"\x1b", "i\\\x1b", "dw", "yw", "rZ", "fa", "cwq\x1b", "\x1b[D", "J"}
+	"\x0b", "\x17", "\x19", "\x1bd", "\x1b[D", "\x1b[C", "\x14", "\x1bu", "\x1bl", "\x1bc", "\x1b\x7f",
+	"\x1b\\", "\x1bB", "\x1bF", "\x1bt", "\x1b[3~", "\x1b[H"}
+var macroKeysVi = []string{"h", "l", "w", "b", "e", "0", "$", "x", "X", "~", "p", "P", "D", "ia\x1b", "A\"\x1b", "i\\\x1b", "dw", "yw", "rZ", "fa", "cwq\x1b", "\x1b[D", "J",
+	"di\"", "da(", "yi'", "ci\"z\x1b", "diw", "daw", "\x1b[C", "dfa", "dtb", ";a", ",b"}
 
 func init() {
 	register(&prop{id: "C18",
@@ -108,6 +110,17 @@ func init() {
 				// replayed in one go, so an ESC followed by further keys of the macro is read as a prefix
 				if i := strings.Index(c.Meta["Kraw"], "\x1b"); c.Meta["mode"] == "vi" && i >= 0 && i < len(c.Meta["Kraw"])-1 {
 					sig += "/esc-followed-by-keys"
+				}
+				// a key that feeds keys back (M-<uppercase> runs do-lowercase-version, which feeds ESC + the
+				// lowercase letter): fed keys go behind the keys already queued, and a macro is queued whole
+				if c.Meta["mode"] == "emacs" {
+					kr := c.Meta["Kraw"]
+					for i := 0; i+1 < len(kr); i++ {
+						if kr[i] == 0x1b && kr[i+1] >= 'A' && kr[i+1] <= 'Z' && i+2 < len(kr) {
+							sig += "/feeding-key-inside-macro"
+							break
+						}
+					}
 				}
 				for _, ch := range c.Meta["Kraw"] {
 					if ch > 0x7f && c.Specs[0].Inputrc != "" {
